@@ -269,6 +269,52 @@ fn projection(a: Adapter, m: &MStyle) -> MStyle {
     p.canon()
 }
 
+/// Value-level comparison modulo spellings the property does not distinguish: an unset colour
+/// slot and the library's explicit "default colour" value denote the same thing.
+trait NormalForm: Clone {
+    fn normal(self) -> Self;
+}
+impl NormalForm for yansi::Style {
+    fn normal(mut self) -> Self {
+        if self.foreground == Some(yansi::Color::Primary) {
+            self.foreground = None;
+        }
+        if self.background == Some(yansi::Color::Primary) {
+            self.background = None;
+        }
+        self
+    }
+}
+impl NormalForm for crossterm::style::ContentStyle {
+    fn normal(mut self) -> Self {
+        use crossterm::style::Color;
+        for slot in [&mut self.foreground_color, &mut self.background_color, &mut self.underline_color] {
+            if *slot == Some(Color::Reset) {
+                *slot = None;
+            }
+        }
+        self
+    }
+}
+impl NormalForm for ansi_term::Style {
+    fn normal(self) -> Self {
+        self
+    }
+}
+impl NormalForm for owo_colors::Style {
+    fn normal(self) -> Self {
+        self
+    }
+}
+impl NormalForm for termcolor::ColorSpec {
+    fn normal(self) -> Self {
+        self
+    }
+}
+fn normal_form<T: NormalForm>(x: &T) -> T {
+    x.clone().normal()
+}
+
 /// Returns Ok(render layer applied?)
 fn check(a: Adapter, m: &MStyle) -> Result<bool, String> {
     let style = to_style(*m);
@@ -277,7 +323,8 @@ fn check(a: Adapter, m: &MStyle) -> Result<bool, String> {
         ($conv:expr, $expect:expr, $render:expr, $skip_render:expr) => {{
             let got = $conv;
             let exp = $expect;
-            if got != exp {
+            // "colour not set" and "explicitly the terminal's default colour" are the same request
+            if normal_form(&got) != normal_form(&exp) {
                 return Err(format!("{:?}: [{}] converts to {:?}, expected {:?}", a, m.describe(), got, exp));
             }
             // the render layer is only meaningful where the library renders the
